@@ -360,3 +360,6 @@ func VerifC05_CustomFinaliseRestoresEveryRef() {
 	}
 	verifrt.Cover("C05.custom.done")
 }
+
+// C03: the share the built-in Istio script writes equals the step's value (same obligation as C15's).
+func VerifC03_IstioStepShare() { VerifC15_IstioVirtualServiceSplit() }
